@@ -178,8 +178,7 @@ Record dialect := {
   d_div : Z -> Z -> Z;
   d_str2num : list Z -> numlit;
   d_strlt : list Z -> list Z -> bool;
-  d_otto_cmp : bool;         (* otto's transcription of 11.8.5 / 11.9.3 instead of the clause text *)
-  d_cond_ref : bool          (* c ? t : f yields the chosen branch as a Reference instead of its value *)
+  d_otto_cmp : bool          (* otto's transcription of 11.8.5 / 11.9.3 instead of the clause text *)
 }.
 
 Section WithDialect.
@@ -525,13 +524,10 @@ Fixpoint evalr (e : expr) : M rv :=
       else if op =? 23 then rval (_ <- gv (evalr l) ;; gv (evalr r))
       else rval (lv <- gv (evalr l) ;; rv <- gv (evalr r) ;; binop op lv rv)
   | ECond c t f =>
+      (* 11.12: Return GetValue(trueRef / falseRef) (otto since /repo commit 07b2f1f; before it the
+         chosen branch was handed on as a Reference) *)
       cv <- gv (evalr c) ;;
-      if d_cond_ref d then
-        (* cmplEvaluateNodeConditionalExpression returns the chosen branch unresolved *)
-        (if to_boolean_v cv then evalr t else evalr f)
-      else
-        (* 11.12: Return GetValue(trueRef / falseRef) *)
-        rval (if to_boolean_v cv then gv (evalr t) else gv (evalr f))
+      rval (if to_boolean_v cv then gv (evalr t) else gv (evalr f))
   | EAsg n e1 => rval (v <- gv (evalr e1) ;; _ <- setvar n v ;; ret v)
   | ECmp op n e1 =>
       rval (lv <- getvar n ;; rv <- gv (evalr e1) ;; x <- binop op lv rv ;; _ <- setvar n x ;; ret x)
@@ -563,14 +559,14 @@ End WithDialect.
 Definition spec_d : dialect := {|
   d_int32 := to_int32; d_uint32 := to_uint32; d_uint16 := to_uint16; d_integer := to_integer; d_div := fdiv;
   d_str2num := string_to_number; d_strlt := units_lt;
-  d_otto_cmp := false; d_cond_ref := false |}.
+  d_otto_cmp := false |}.
 
 Definition model_str2num (s : list Z) : numlit := NLVal (parse_number s).
 
 Definition model_d : dialect := {|
   d_int32 := m_to_int32; d_uint32 := m_to_uint32; d_uint16 := m_to_uint16; d_integer := m_to_integer; d_div := m_divide;
   d_str2num := model_str2num; d_strlt := m_str_lt;
-  d_otto_cmp := true; d_cond_ref := true |}.
+  d_otto_cmp := true |}.
 
 (* observation of one run: status (0 normal, else the thrown tag), result, final variables, log *)
 Definition obs := (Z * oval * list oval * list Z)%type.
